@@ -44,6 +44,9 @@ Definition croute (m : alist cval) : option Z :=
   | _ => None
   end.
 
+(* connections with token >= 100 are connected to the second front-end (gate-2, string token 10) *)
+Definition cfront (sid : Z) : cval := if Z.leb 100 sid then VStr 10 else VStr 0.
+
 Definition cop := op cval.
 Definition cobs := obs cval.
 
@@ -65,10 +68,10 @@ Definition obs_eqb (a b : cobs) : bool :=
 Definition case := (list cop * list cobs)%type.
 
 Definition model_run (ops : list cop) : list cobs :=
-  run cval crt VInt (VStr 0) (VStr 9) croute 3 ops.
+  run cval crt VInt cfront (VStr 9) croute 3 ops.
 
 Definition spec_obs_run (ops : list cop) : list cobs :=
-  spec_run cval crt VInt (VStr 0) (VStr 9) croute 3 ops.
+  spec_run cval crt VInt cfront (VStr 9) croute 3 ops.
 
 Definition agree (c : case) : bool := list_eqb obs_eqb (model_run (fst c)) (snd c).
 Definition monitor (c : case) : bool := list_eqb obs_eqb (spec_obs_run (fst c)) (snd c).
